@@ -29,6 +29,10 @@ CLAIMED.update({
   "C05": "Payload integrity both directions and both encapsulations: byte-identical payload (symbolic probe index), truthful XOR-PEER-ADDRESS / channel number, padding and length fields, whole-or-dropped for all datagram sizes 0..65507.",
   "C19": "Response correlation on every handler harness (transaction id, method, destination, at most one response), Binding reports exactly the source address, Allocate success reports true mapped/relayed address and the lifetime armed, retransmit gets the cached success, other Allocate gets 437 with no change.",
 })
+CLAIMED.update({
+  "C12": "Client transactions on the real Client/Transaction code with goroutines as cooperative threads: 7 transmissions at RTO, doubling, capped 1.6 s for every RTO in (0,1.6 s]; completion exactly once by the response with the matching id (any id symbolic), duplicates/strangers ignored; Close and write errors release the caller; nothing left in the table.",
+  "C13": "Relayed socket: data only after a CreatePermission success (all server reactions, up to 3 attempts), ChannelData only on a binding the server confirmed for that exact peer/number, own number per peer in range; ReadFrom returns queued payloads unchanged, honours deadline and Close; inbound queues never block.",
+})
 NA = {}
 ALL = ["C%02d" % i for i in range(1, 21)]
 for p in ALL:
